@@ -48,7 +48,9 @@ class TB:
     def fspec(self, kind=None):
         """the inode the block processor leaves: consistent block count"""
         rnd, bs = self.rnd, self.bs
-        kind = kind or rnd.choice(["empty", "frag", "frag", "blocks", "blocks+frag", "blocks", "big", "sparse", "ext-small"])
+        kind = kind or rnd.choice(["empty", "frag", "frag", "frag", "blocks", "blocks+frag", "blocks", "blocks+frag", "sparse", "ext-small"])
+        if kind == "blocks" and rnd.random() < 0.02:
+            kind = "big"
         nofrag = (NOX, NOX)
         start = rnd.choice([96, 4096, rnd.randrange(1 << 30)])
         if kind == "empty":
@@ -192,20 +194,20 @@ def shape_listing_border(rnd):
     for k in range(rnd.randrange(1, 4)):
         d = b"b%d" % k
         tb.mkdir(d)
-        flat_dir(tb, d, rnd.choice([1, 3, 100, 255, 256, 270]), rnd.choice([8, ln, 60]), "pf")
+        flat_dir(tb, d, rnd.choice([1, 3, 100, 255, 256, 270]), rnd.choice([8, ln, 60]), rnd.choice(["p", "p", "ps", "pf"]))
     return "listing-border", tb
 
 
-def shape_inode_blocks(rnd):
+def shape_inode_blocks(rnd, n=None):
     """many inodes: the inode table has several blocks, children of one directory lie in different blocks"""
     tb = TB(rnd, mode=rnd.choice([0, 3, 3]))
     nd = rnd.randrange(2, 7)
     for i in range(nd):
         tb.mkdir(b"d%02d" % i)
-    n = rnd.choice([300, 600, 900, 1400])
+    n = n or rnd.choice([280, 350, 450])
     for i in range(n):
         d = b"d%02d" % rnd.randrange(nd)
-        tb.leaf(join(d, name_of(rnd, i, rnd.choice([6, 9, 14]))), rnd.choice("ppfclbs"), xattr_p=0.05)
+        tb.leaf(join(d, name_of(rnd, i, rnd.choice([6, 9, 14]))), rnd.choice("pppsfclb"), xattr_p=0.05)
     for i in range(rnd.randrange(0, 10)):
         if tb.files:
             tb.hardlink(join(b"d%02d" % rnd.randrange(nd), b"zz-link%d" % i), rnd.choice(tb.files))
@@ -317,6 +319,8 @@ def gen_cases(rnd, quick):
         put(shape_ids(rnd, 65540))
         for _ in range(4):
             put(shape_random(rnd, 3000))
+        for n in (900, 1400, 3000):
+            put(shape_inode_blocks(rnd, n))
     for _ in range(25 if quick else 300):
         put(shape_small(rnd))
     for _ in range(6 if quick else 60):
